@@ -143,3 +143,29 @@ theorem walkDoc_varlinks_agreeing (s : Schema) (d : QueryDoc) (evs : List Event)
     exact hagree op0 hop0 op hop raw
 
 end Gql.Validate
+
+namespace Gql.Validate
+open Gql
+
+/-- the variable uses of a run: (start offset, name) -/
+def varUseKeys (evs : List Event) : List (Nat × Name) :=
+  evs.filterMap fun e =>
+    match e.p with
+    | .value (.mk .variable raw _ p) _ _ => some (p.start, raw)
+    | _ => none
+
+/-- decidable form of `VarStartsDistinct` -/
+def varStartsDistinctB (evs : List Event) : Bool :=
+  (varUseKeys evs).all fun a => (varUseKeys evs).all fun b => a.1 != b.1 || a.2 == b.2
+
+theorem varStartsDistinct_of_B (evs : List Event) (h : varStartsDistinctB evs = true) : VarStartsDistinct evs := by
+  intro e1 h1 e2 h2 r1 c1 p1 x1 y1 r2 c2 p2 x2 y2 hp1 hp2 hk
+  unfold varStartsDistinctB at h
+  simp only [List.all_eq_true, Bool.or_eq_true, bne_iff_ne, ne_eq, beq_iff_eq] at h
+  have m1 : (p1.start, r1) ∈ varUseKeys evs := List.mem_filterMap.2 ⟨e1, h1, by rw [hp1]⟩
+  have m2 : (p2.start, r2) ∈ varUseKeys evs := List.mem_filterMap.2 ⟨e2, h2, by rw [hp2]⟩
+  rcases h _ m1 _ m2 with h | h
+  · exact absurd hk h
+  · exact h
+
+end Gql.Validate
